@@ -209,7 +209,7 @@ def meta_of(ns):
     return m
 
 
-def install_hook(root, snapdir, logpath, keep_snapshots):
+def install_hook(root, snapdir, logpath, keep_snapshots, stop_after_first=False):
     """Wrap safe_file_dump as imported by nessai.samplers.base: digest the sampler right before it
     is pickled, then let the real function write, then keep a copy of the directory."""
     import nessai.samplers.base as base
@@ -234,10 +234,13 @@ def install_hook(root, snapdir, logpath, keep_snapshots):
                 json.dump(rec, fh)
         with open(logpath, "a") as fh:
             fh.write(json.dumps({"n": n, "meta": rec["meta"]}) + "\n")
+        if stop_after_first:
+            # only the first checkpoint a RESUMED sampler writes is wanted: stop like a kill right after it
+            os._exit(0)
     base.safe_file_dump = hooked
 
 
-def run_phase(root, kwargs, snapdir, logpath, keep, kill_at=None, pre_evals=0, set_max=None):
+def run_phase(root, kwargs, snapdir, logpath, keep, kill_at=None, pre_evals=0, set_max=None, stop_after_first=False):
     """Fork body: (resume or start) and run the sampler to the end (or to the kill)."""
     def body(emit):
         model = make_model()
@@ -249,7 +252,7 @@ def run_phase(root, kwargs, snapdir, logpath, keep, kill_at=None, pre_evals=0, s
         emit({"resumed": bool(getattr(fs.ns, "resumed", False)), "iteration": int(fs.ns.iteration),
               "m0": m0, "model_count_after_resume": int(fs.ns.model.likelihood_evaluations),
               "sampling_time": float(fs.ns.sampling_time.total_seconds())})
-        install_hook(root, snapdir, logpath, keep)
+        install_hook(root, snapdir, logpath, keep, stop_after_first)
         Calls.kill_at = kill_at
         if set_max is not None:
             fs.ns.max_iteration = set_max
@@ -401,6 +404,59 @@ def job_snapshots(work, kwargs, job, timeout):
     return out
 
 
+def job_regen(work, kwargs, job, timeout):
+    """Second-generation checkpoints: run, pick checkpoints C1 (flow phase, populated pool), resume from C1 in
+    a fresh process R2 and let it run until it has written its first checkpoint C2 (at loop entry when the
+    periodic condition is met there), then resume from C2 in a third process R3."""
+    root = os.path.join(work, "run")
+    snapdir = os.path.join(work, "snaps")
+    snap2 = os.path.join(work, "snaps2")
+    for d in (root, snapdir, snap2):
+        shutil.rmtree(d, ignore_errors=True)
+    os.makedirs(snapdir)
+    logpath = os.path.join(work, "log.jsonl")
+    open(logpath, "w").close()
+    st, msgs = in_fork(run_phase(root, kwargs, snapdir, logpath, True), timeout)
+    if first(msgs, "finished") is None:
+        return {"id": job["id"], "error": f"base run failed (status {st}): " + json.dumps(msgs)[-1500:]}
+    metas = [json.loads(l) for l in open(logpath)]
+    sel = job.get("select", {})
+    if sel.get("only") is not None:
+        picks = [n for n in sel["only"] if n < len(metas)]
+    else:
+        mod = sel.get("not_multiple_of", 5)
+        flow = [m["n"] for m in metas if not m["meta"]["uninformed"] and m["meta"]["populated"] and m["meta"]["pool"] > 0
+                and m["meta"]["iteration"] % mod]
+        uninf = [m["n"] for m in metas if m["meta"]["uninformed"] and m["meta"]["iteration"] % mod and m["meta"]["iteration"] > 10]
+        k = sel.get("max", 2)
+        step = max(1, len(flow) // max(1, k))
+        picks = flow[::step][:k] + uninf[:1]
+    out = {"id": job["id"], "kind": "regen", "n_checkpoints": len(metas), "cases": []}
+    for n in picks:
+        rec1 = json.load(open(os.path.join(snapdir, f"{n}.json")))
+        restore(root, os.path.join(snapdir, str(n)))
+        shutil.rmtree(snap2, ignore_errors=True)
+        os.makedirs(snap2)
+        log2 = os.path.join(work, "log2.jsonl")
+        open(log2, "w").close()
+        st2, m2 = in_fork(run_phase(root, kwargs, snap2, log2, True, stop_after_first=True), timeout)
+        case = {"n": n, "meta1": rec1["meta"], "gen1": rec1["digest"], "start2": first(m2, "resumed")}
+        err = first(m2, "harness_error")
+        p2 = os.path.join(snap2, "0.json")
+        if not os.path.exists(p2):
+            case["gen2_error"] = (err or {}).get("harness_error", f"the resumed process wrote no checkpoint (status {st2})")[-600:]
+            out["cases"].append(case)
+            continue
+        rec2 = json.load(open(p2))
+        case.update(meta2=rec2["meta"], gen2=rec2["digest"])
+        restore(root, os.path.join(snap2, "0"))
+        st3, m3 = in_fork(resume_digest_phase(root, kwargs, snap2, 0), timeout)
+        case["after2"] = first(m3, "ready") or first(m3, "resume_error") or {"resume_error": "HarnessTimeoutOrCrash",
+                                                                             "msg": json.dumps(m3)[-300:]}
+        out["cases"].append(case)
+    return out
+
+
 def job_chain(work, kwargs, job, timeout):
     root = os.path.join(work, "run")
     snapdir = os.path.join(work, "snaps")
@@ -443,6 +499,8 @@ def main():
         try:
             if j["kind"] == "snapshots":
                 results.append(job_snapshots(work, kw, j, job.get("timeout", 300)))
+            elif j["kind"] == "regen":
+                results.append(job_regen(work, kw, j, job.get("timeout", 300)))
             else:
                 results.append(job_chain(work, kw, j, job.get("timeout", 300)))
         except Exception:
